@@ -27,7 +27,8 @@ RULE = ('Generated sessions (3-6 symbols with hash-diverse names, dense markets 
         'class is counted separately.'
         " Part `reuse` (in-process): a fresh run against a run on a data-handler object that already served another session, with one symbol's file starting inside the session and the asset joining the universe shortly before its first bar; and sessions that build their own handler from the current directory after a backtest was run from another directory. Alpha kinds also include rotating weight vectors and a model reading the data source's range query."
         " Round-10 reach: a third of the markets quote unrounded doubles (seventeen significant digits), half of them below 1."
-        " Round-11 reach: lookback lists are objects of the configuration, shared by every run of it.")
+        " Round-11 reach: lookback lists are objects of the configuration, shared by every run of it."
+        " Round-12 reach (reuse part): another vendor's files for the same symbols are loaded into a source of their own while the handler is in use; in cwd_mode a failing source construction is attempted and caught first.")
 ASSUMPTIONS = [
     'hash seeds 0-3 (quick) / 0-4 plus one derived from VERIF_SEED (thorough)',
     'order identifiers (uuid4) are excluded from the comparison, as the statement says',
@@ -332,6 +333,10 @@ def run_reuse(case):
         h = q.BacktestDataHandler(None, data_sources=[ds_h])
         session_digest({'cfg': variant(cfg), 'market': mk}, data_source=ds_h, path=path, data_handler=h)
         _poke(q, ds_h, cfg, mk)
+        # another vendor's files for the same symbols (other prices) are loaded into a source of their own meanwhile
+        decoy = {s: market.build_rows(4242 + i, cal.date3(cfg['start']) - D.timedelta(days=9), 70) for i, s in enumerate(mk)}
+        with market.csv_dir(decoy) as p_decoy:
+            q.CSVDailyBarDataSource(p_decoy, q.Equity, adjust_prices=cfg.get('adjust', True), csv_symbols=list(mk))
         same_h = session_digest(case, data_source=ds_h, path=path, data_handler=h)
     clear_caches()
     d = session.first_diff(base, same_h)
@@ -359,6 +364,12 @@ def run_reuse(case):
                 os.chdir(pa)
                 own(pb)
                 os.chdir(pb)
+                try:
+                    # (a source over the other directory that fails to load - one listed symbol has no file - was attempted
+                    # and the error caught)
+                    q.CSVDailyBarDataSource(pa, q.Equity, csv_symbols=list(mk) + ['NOFILE'])
+                except Exception:                                 # noqa
+                    pass
                 got = own(pb)
             finally:
                 os.chdir(old_cwd)
